@@ -407,7 +407,8 @@ func (r *WordRenderer) extractCodeBlockLines(node ast.Node) []string {
 	for i := 0; i < node.Lines().Len(); i++ {
 		line := node.Lines().At(i)
 		lineText := string(line.Value(r.source))
-		// 保持原始格式，包括空格和制表符
+		// 保持原始格式，包括空格和制表符；行结束符（LF或CRLF）不属于代码文本
+		lineText = strings.TrimSuffix(strings.TrimSuffix(lineText, "\n"), "\r")
 		lines = append(lines, lineText)
 	}
 
